@@ -166,6 +166,7 @@ struct World {
     std::map<std::string, Kept> live;      // long-lived handles of the current session, keyed by kind:id (reused by later operations)
     bool prefer_live;                      // this operation addresses entities through a long-lived handle when one exists
     bool viol_own;                         // the recorded violation belongs to the lane's own property
+    bool lookups_due;                      // the next observation evaluates the lookup-agreement predicates
     bool flush_valid; Node flush_doc;     // C11: guarantee pending
     std::string ro_bytes; bool ro_tracking; uint64_t ro_writes0; int ro_wopens0;
     std::set<std::string> seen_ids;       // every id ever observed in this run
@@ -180,7 +181,7 @@ struct World {
     bool ghosts_allowed;        // keep handles to deleted / still-live entities across operations (abuse, durable lanes)
 
     World() : file_gen(0), is_open(false), mode(0), session(0), cur(-1), have_last(false), flush_valid(false), ro_tracking(false),
-              ro_writes0(0), ro_wopens0(0), getters(0), sim_start(0), stop(false), ghosts_allowed(false), del_result(false) { prefer_live = false; viol_own = false; }
+              ro_writes0(0), ro_wopens0(0), getters(0), sim_start(0), stop(false), ghosts_allowed(false), del_result(false) { prefer_live = false; viol_own = false; lookups_due = true; }
 
     // -- running
     void run(const Plan &p, const std::string &dir);
